@@ -10,13 +10,14 @@ pub mod common;
 pub mod fixed;
 pub mod gens;
 pub mod surface;
+pub mod worst;
 
 use vmodel::*;
 
 pub fn spec() -> PropSpec {
     PropSpec {
         id: "C10",
-        rule: "cases: (a, m) with m >= 1 drawn from modulus classes {vmodel odd classes (1, 3, 2^B-1, 2^(B-1)+1, ~2^B/3, small primes, zero high limbs, 2^B-c, top-limb edges, random odd), 2^k and s*2^k with k uniform over 0..B (plus limb-boundary bias), p*q / p1*p2 / p*q*2^k with a known prime factor, small even, random} and a from {0, 1, m-1, a >= m (m, m+1, MAX, m+r, largest lift), multiple of a known prime factor of m, unit*2^j (shares only 2 with an even m), r*2^z with z >= 62, constructed unit, related to m, residue classes, random}; every inversion API form of the width is checked on the same (a, m) against gcd by Euclid (is_some <=> gcd = 1) and a*x = 1 (mod m), x < m for m >= 2 (Montgomery forms: retrieved values multiply to 1 mod m; adjusted inverter: a*x = A mod m). mod-2^k sub-checks: (a, k) with k uniform in 0..=B plus a sweep of k (all k for <= 256 bits, limb-boundary set otherwise). gcd sub-checks: pairs {(0,0), (0,y), (x,x), powers of two, d*u*2^i / d*v*2^j, x and x±1, Fibonacci pairs, y=k*x, small-magnitude negatives, signed extremes, related shapes}, every gcd form (Uint, Odd<Uint>, Int, Int x Uint, Uint x Int, BoxedUint, Odd<BoxedUint>) against Euclid on the magnitudes, ct == vartime. non-trivial (inversion): gcd(a,m) != 1 (also for the two's-complement reading of the same limbs used by the Int forms), or m even (k >= 1), or a >= m, or the number handed to the Bernstein-Yang iteration (a; for Montgomery forms the representation a*2^B mod m) has >= 62 trailing zeros (mod 2^k sub-checks: k >= 1 or a even); (gcd): gcd != 1, or an operand even or zero or negative (two's complement), or >= 62 trailing zeros. distinct by the operand limbs (+ k / adjuster / params flavour). surface/* sub-checks (API-surface audit): the same generators, oracle and rules at 5, 7 and 12 limbs, two more compile-time moduli, Montgomery-form inversion with parameter sets / values that went through constant-time selection against a decoy modulus, generic functions bounded by InvMod / Gcd / Invert / PrecomputeInverter, the boxed inverter with an adjuster of smaller precision; the documented panic of BoxedUint::inv_mod on different limb counts counts as non-trivial.",
+        rule: "cases: (a, m) with m >= 1 drawn from modulus classes {vmodel odd classes (1, 3, 2^B-1, 2^(B-1)+1, ~2^B/3, small primes, zero high limbs, 2^B-c, top-limb edges, random odd), 2^k and s*2^k with k uniform over 0..B (plus limb-boundary bias), p*q / p1*p2 / p*q*2^k with a known prime factor, small even, random} and a from {0, 1, m-1, a >= m (m, m+1, MAX, m+r, largest lift), multiple of a known prime factor of m, unit*2^j (shares only 2 with an even m), r*2^z with z >= 62, constructed unit, related to m, residue classes, random}; every inversion API form of the width is checked on the same (a, m) against gcd by Euclid (is_some <=> gcd = 1) and a*x = 1 (mod m), x < m for m >= 2 (Montgomery forms: retrieved values multiply to 1 mod m; adjusted inverter: a*x = A mod m). mod-2^k sub-checks: (a, k) with k uniform in 0..=B plus a sweep of k (all k for <= 256 bits, limb-boundary set otherwise). gcd sub-checks: pairs {(0,0), (0,y), (x,x), powers of two, d*u*2^i / d*v*2^j, x and x±1, Fibonacci pairs, y=k*x, small-magnitude negatives, signed extremes, related shapes}, every gcd form (Uint, Odd<Uint>, Int, Int x Uint, Uint x Int, BoxedUint, Odd<BoxedUint>) against Euclid on the magnitudes, ct == vartime. non-trivial (inversion): gcd(a,m) != 1 (also for the two's-complement reading of the same limbs used by the Int forms), or m even (k >= 1), or a >= m, or the number handed to the Bernstein-Yang iteration (a; for Montgomery forms the representation a*2^B mod m) has >= 62 trailing zeros (mod 2^k sub-checks: k >= 1 or a even); (gcd): gcd != 1, or an operand even or zero or negative (two's complement), or >= 62 trailing zeros. distinct by the operand limbs (+ k / adjuster / params flavour). surface/* sub-checks (API-surface audit): the same generators, oracle and rules at 5, 7 and 12 limbs, two more compile-time moduli, Montgomery-form inversion with parameter sets / values that went through constant-time selection against a decoy modulus, generic functions bounded by InvMod / Gcd / Invert / PrecomputeInverter, the boxed inverter with an adjuster of smaller precision; the documented panic of BoxedUint::inv_mod on different limb counts counts as non-trivial. Since seeding round 4: one case in ten of the inv / gcd / Montgomery-inverse sub-checks is a worst-case divstep pair (backward beam search over the divstep map, about 2.75 divsteps per bit; for Montgomery forms the representation is the g of the pair).",
         assumptions: vec![
             "num-bigint division / multiplication are correct (the oracle is Euclid's algorithm written in the harness on BigUint)".into(),
             "bridging uses from_words/as_words only".into(),
